@@ -72,7 +72,62 @@ fn manual_server_config(stim: &Value) -> Arc<rustls::ServerConfig> {
     Arc::new(cfg)
 }
 
+/// stim.second_alpn: two connections from ONE Endpoint.  The first goes to a server that negotiates h2 (full handshake, session
+/// tickets issued, one call made); the second to a server that shares the first one's session store - so the handshake may be
+/// resumed - and negotiates `second_alpn` ("h2" | "none" | "http/1.1").  What h2 requirement applies to a connection does not depend
+/// on how its handshake was abbreviated.  Events: "handler" per request, "client" (first connection), "client2" (second, with
+/// "resumed": what the second server saw).
+fn run_two(stim: &Value, rec: &Rec) {
+    let log = rec.clone();
+    let stim = stim.clone();
+    block_on_paused(async move {
+        let base = manual_server_config(&json!({"alpn":"h2","client_auth":"none"}));
+        let mut second = (*base).clone();      // same session storage / ticketer (they are Arcs inside the config)
+        second.alpn_protocols = match stim["second_alpn"].as_str().unwrap_or("none") { "http/1.1" => vec![b"http/1.1".to_vec()], "h2" => vec![b"h2".to_vec()], _ => vec![] };
+        let cfgs = [base, Arc::new(second)];
+        let t = ClientTlsConfig::new().ca_certificate(Certificate::from_pem(pem("ca_a.pem"))).domain_name("good.test").assume_http2(stim["assume_http2"].as_bool().unwrap_or(false));
+        let ep = match tonic::transport::Endpoint::from_static("https://good.test").tls_config(t) { Ok(e) => e, Err(e) => { log.ev(json!({"e":"client","connect":"config_err","call":"none","code":-1,"msg":e.to_string()})); return; } };
+        let first = Arc::new(Mutex::new(vec![]));
+        for (round, cfg) in cfgs.iter().enumerate() {
+            let (c_io, s_io, _d) = Shim::pair(65536, 65536, 65536, 0);
+            let acceptor = tokio_rustls::TlsAcceptor::from(cfg.clone());
+            let svc = SvcServer::new(H { log: log.clone() });
+            let resumed = Arc::new(Mutex::new(None::<bool>));
+            let resumed2 = resumed.clone();
+            let log2 = log.clone();
+            let srv = tokio::spawn(async move {
+                match acceptor.accept(s_io).await {
+                    Ok(tls) => {
+                        *resumed2.lock().unwrap() = Some(tls.get_ref().1.handshake_kind() == Some(rustls::HandshakeKind::Resumed));
+                        let incoming = tokio_stream::StreamExt::chain(tokio_stream::once(Ok::<_, std::io::Error>(tls)), tokio_stream::pending());
+                        let _ = tonic::transport::Server::builder().add_service(svc).serve_with_incoming(incoming).await; }
+                    Err(e) => log2.ev(json!({"e":"server_handshake_failed","msg":e.to_string()})),
+                }
+            });
+            let mut slot = Some(TapIo { inner: c_io, first: first.clone() });
+            let ch = tokio::time::timeout(Duration::from_secs(30), ep.connect_with_connector(tower::service_fn(move |_: http::Uri| { let io = slot.take(); async move { io.map(hyper_util::rt::TokioIo::new).ok_or_else(|| std::io::Error::other("gone")) } }))).await;
+            let (connect, call, code) = match ch {
+                Err(_) => ("hang", "none", -1),
+                Ok(Err(_)) => ("err", "none", -1),
+                Ok(Ok(ch)) => {
+                    let mut cl = SvcClient::new(ch);
+                    match tokio::time::timeout(Duration::from_secs(30), cl.unary(Request::new(vec![7]))).await {
+                        Err(_) => ("ok", "hang", -1), Ok(Ok(_)) => ("ok", "ok", 0), Ok(Err(s)) => ("ok", "err", s.code() as i32) }
+                }
+            };
+            tokio::time::sleep(Duration::from_millis(2)).await;
+            let f = first.lock().unwrap().clone();
+            let kind = if f.is_empty() { "none" } else if f.len() >= 3 && f[0] == 0x16 && f[1] == 0x03 { "tls_client_hello" } else if f.starts_with(b"PRI * HTTP/2") { "plaintext_h2" } else { "other" };
+            let r = *resumed.lock().unwrap();
+            log.ev(json!({"e": if round == 0 { "client" } else { "client2" },"connect":connect,"call":call,"code":code,"first_bytes":kind,"resumed":r.unwrap_or(false)}));
+            srv.abort();
+            first.lock().unwrap().clear();
+        }
+    });
+}
+
 pub fn run(stim: &Value, rec: &Rec) {
+    if stim["second_alpn"].is_string() { return run_two(stim, rec); }
     let log = rec.clone();
     let stim = stim.clone();
     block_on_paused(async move {
